@@ -479,6 +479,11 @@ fn dec_doc(s: &str) -> Option<Doc> {
 
 /// injective in (kind, tag, rate, nonce): the first line spells all four out
 fn render_doc(d: &Doc) -> String {
+    render_doc_unit(d, " seconds")
+}
+
+/// `unit`: " seconds" for the stepped reloader, "ms" for the real reloader thread
+fn render_doc_unit(d: &Doc, unit: &str) -> String {
     let mut s = format!("# kind={} tag={} rate={:?} nonce={}\n", d.kind, d.tag, d.rate, d.nonce);
     if d.kind == 'y' {
         s.push_str("appenders: [unclosed\n  {{{ : : not yaml\n");
@@ -487,7 +492,7 @@ fn render_doc(d: &Doc) -> String {
     if d.kind == 'r' {
         s.push_str("refresh_rate: banana\n");
     } else if let Some(r) = d.rate {
-        s.push_str(&format!("refresh_rate: {} seconds\n", r));
+        s.push_str(&format!("refresh_rate: {}{}\n", r, unit));
     }
     if d.kind == 'c' {
         s.push_str("bogus_top_level_key: 1\n");
@@ -701,6 +706,7 @@ pub fn exec(fields: &[&str]) -> String {
         ["swap", cfgs, scripts, ops] => exec_swap(cfgs, scripts, ops),
         ["stress", cfgs, n_log, n_rec, iters, probes] => exec_stress(cfgs, n_log, n_rec, iters, probes),
         ["reload", docs, init, steps] => exec_reload(docs, init, steps),
+        ["thread", docs, hists] => exec_thread(docs, hists),
         _ => "bad-case".to_owned(),
     }
 }
@@ -964,10 +970,104 @@ fn gen_reload_random(rng: &mut Rng, thorough: bool, emit: &mut dyn FnMut(String)
     ));
 }
 
+/// histories for the real reloader thread; refresh rates are milliseconds here
+/// (`/`-separated: the generic shrinker of `check` must not renumber the documents)
+const THREAD_DOCS: &str = "g:1:20:0/g:2:40:0/y:9:-:0/g:3:-:0/g:1:20:1/g:5:3000:0/c:6:20:0/g:7:20:0/r:8:20:0/l:4:40:0";
+
+fn gen_thread_deterministic(emit: &mut dyn FnMut(String)) {
+    // docs: 0 = A(20ms) 1 = B(40ms) 2 = syntax error 3 = C without refresh_rate 4 = A, other text
+    // 5 = S(3000ms) 6 = schema error 7 = D(20ms) 8 = bad refresh_rate 9 = lossy E(40ms)
+    let hist = [
+        "0:10>w:1:11,w:7:12",                 // valid changes (rate 20 -> 40 -> 20)
+        "0:10>w:0:10,w:0:11,w:1:12",          // no change, touch without change, then a change
+        "0:10>w:2:11,w:2:11,w:0:12",          // syntax error keeps A and keeps polling; restore re-applies
+        "0:10>w:2:11,w:1:12",                 // syntax error, then another good file
+        "0:10>x,w:0:10,x,w:1:11",             // delete + recreate unchanged, delete + recreate changed
+        "0:10>w:1:11,w:7:12,w:0:13,w:1:14",   // refresh-rate changes both ways, polling continues
+        "0:10>w:3:11,w:1:12,w:0:13",          // refresh_rate removed: applied, thread ends, later edits ignored
+        "0:10>w:1:10,w:1:11",                 // same-mtime edit missed, seen when the mtime moves
+        "0:10>u:11,w:1:11,w:1:10",            // unreadable (not UTF-8), same mtime afterwards is still seen (fixed)
+        "0:10>w:5:11,w:1:12,z,w:0:13",        // slow rate: next edit not seen before the long wait
+        "0:10>w:6:11,w:8:12,w:9:13,w:0:14",   // schema error / bad rate keep A; lossy config applied
+        "0:10>w:4:11,w:4:12",                 // same configuration, other text: applied again; then touch
+        "3:10>w:1:11",                        // no refresh_rate at start: no thread
+        "2:10>w:1:11",                        // init on a broken file fails
+        "0:10>w:1:9,w:2:8,x,w:2:8,w:7:7",     // mtime going backwards; bad, deleted, bad again, good
+    ];
+    emit(format!("thread\t{}\t{}", THREAD_DOCS, hist.join("|")));
+}
+
+fn gen_thread_random(rng: &mut Rng, emit: &mut dyn FnMut(String)) {
+    // 15 histories per case line (they run in parallel children)
+    let mut hs = vec![];
+    for _ in 0..15 {
+        let nd = 10u64;
+        let mut m = 10u64;
+        let mut cur = *rng.pick(&[0usize, 0, 0, 1, 7]);
+        let start = cur;
+        let n = rng.range(2, 7);
+        let mut steps: Vec<String> = vec![];
+        let mut slow_pending = false;
+        for _ in 0..n {
+            if slow_pending {
+                // after the slow-rate document: one unseen edit, then the long wait
+                cur = *rng.pick(&[0usize, 1, 7]);
+                m += 1;
+                steps.push(format!("w:{}:{}", cur, m));
+                steps.push("z".to_owned());
+                slow_pending = false;
+                continue;
+            }
+            match rng.below(20) {
+                0..=1 => steps.push(format!("w:{}:{}", cur, m)),
+                2..=3 => {
+                    m += 1;
+                    steps.push(format!("w:{}:{}", cur, m));
+                }
+                4..=11 => {
+                    cur = rng.below(nd) as usize;
+                    if cur == 5 && rng.chance(2, 3) {
+                        cur = 1;
+                    }
+                    m += rng.range(1, 2);
+                    steps.push(format!("w:{}:{}", cur, m));
+                    slow_pending = cur == 5;
+                }
+                12..=13 => {
+                    cur = *rng.pick(&[0usize, 1, 2, 4, 7, 9]);
+                    steps.push(format!("w:{}:{}", cur, m));
+                }
+                14..=16 => steps.push("x".to_owned()),
+                17 => {
+                    if rng.chance(1, 2) {
+                        m += 1;
+                    }
+                    steps.push(format!("u:{}", m));
+                }
+                _ => {
+                    if m > 1 {
+                        m -= 1;
+                    }
+                    cur = *rng.pick(&[0usize, 1, 2, 3, 7]);
+                    steps.push(format!("w:{}:{}", cur, m));
+                }
+            }
+        }
+        hs.push(format!("{}:10>{}", start, steps.join(",")));
+    }
+    emit(format!("thread\t{}\t{}", THREAD_DOCS, hs.join("|")));
+}
+
 pub fn gen(rng: &mut Rng, n: usize, thorough: bool, emit: &mut dyn FnMut(String)) {
     gen_swap_deterministic(emit);
     gen_reload_deterministic(emit);
     gen_stress(rng, thorough, emit);
+    gen_thread_deterministic(emit);
+    if thorough {
+        for _ in 0..9 {
+            gen_thread_random(rng, emit);
+        }
+    }
     for i in 0..n {
         if i % 5 < 3 {
             gen_swap_random(rng, thorough, emit);
@@ -977,7 +1077,235 @@ pub fn gen(rng: &mut Rng, n: usize, thorough: bool, emit: &mut dyn FnMut(String)
     }
 }
 
-/// child-process entry point (`verif-harness child c15 …`), for checks that need process-global state
-pub fn child(_args: &[String]) -> i32 {
-    2
+// ---------------------------------------------------------------------------------------------
+// the real reloader thread: `init_file` in a child process (the global logger exists once per process)
+// ---------------------------------------------------------------------------------------------
+/// wait after every edit: 15 x the largest ordinary refresh rate (40 ms) the generators use
+const THREAD_WAIT_MS: u64 = 600;
+/// the `z` step: longer than the slow refresh rate (3000 ms) plus the same margin
+const THREAD_LONG_WAIT_MS: u64 = 4000;
+
+/// Histories are independent of each other, so the observation of a case line is the join of the
+/// observations of its histories. Within ONE run of `./check` (same parent process, same harness
+/// binary) a history that has already been executed is not executed again: the shrinker's
+/// candidates are mostly subsets of the histories of the failing line, and every real execution
+/// costs seconds of waiting. The first evaluation of a run always executes for real.
+fn thread_cache_dir() -> Option<PathBuf> {
+    let base = std::env::var("VERIF_SCRATCH").ok()?;
+    let ppid = std::os::unix::process::parent_id();
+    let stat = std::fs::read_to_string(format!("/proc/{}/stat", ppid)).ok()?;
+    // field 22 (after the parenthesised command name) is the parent's start time
+    let start = stat.rsplit_once(')')?.1.split_whitespace().nth(19)?.to_owned();
+    let exe = std::env::current_exe().ok()?;
+    let md = std::fs::metadata(&exe).ok()?;
+    let mt = md.modified().ok()?.duration_since(SystemTime::UNIX_EPOCH).ok()?.as_nanos();
+    // drop caches of runs whose parent is gone
+    if let Ok(rd) = std::fs::read_dir(&base) {
+        for e in rd.flatten() {
+            let name = e.file_name().to_string_lossy().into_owned();
+            if let Some(rest) = name.strip_prefix("c15_threadcache_") {
+                let pid = rest.split('_').next().unwrap_or("");
+                if !Path::new(&format!("/proc/{}", pid)).exists() {
+                    let _ = std::fs::remove_dir_all(e.path());
+                }
+            }
+        }
+    }
+    let d = Path::new(&base).join(format!("c15_threadcache_{}_{}_{}_{}", ppid, start, md.len(), mt));
+    std::fs::create_dir_all(&d).ok()?;
+    Some(d)
+}
+
+fn fnv(s: &str) -> String {
+    let mut h: u64 = 0xcbf29ce484222325;
+    for b in s.bytes() {
+        h ^= b as u64;
+        h = h.wrapping_mul(0x100000001b3);
+    }
+    format!("{:016x}", h)
+}
+
+fn exec_thread(docs: &str, hists: &str) -> String {
+    let exe = match std::env::current_exe() {
+        Ok(e) => e,
+        Err(_) => return "ERROR:current_exe".to_owned(),
+    };
+    let cache = thread_cache_dir();
+    enum Job {
+        Cached(String),
+        Run(std::io::Result<std::process::Child>, PathBuf, Option<PathBuf>),
+    }
+    let mut jobs = vec![];
+    for h in hists.split('|') {
+        let slot = cache.as_ref().map(|c| c.join(fnv(&format!("{}\t{}", docs, h))));
+        if let Some(Ok(o)) = slot.as_ref().map(std::fs::read_to_string) {
+            jobs.push(Job::Cached(o));
+            continue;
+        }
+        let dir = scratch_dir();
+        let ch = std::process::Command::new(&exe)
+            .args(["child", "c15", "thread", docs, h])
+            .arg(&dir)
+            .stdin(std::process::Stdio::null())
+            .stdout(std::process::Stdio::piped())
+            .stderr(std::process::Stdio::null())
+            .spawn();
+        jobs.push(Job::Run(ch, dir, slot));
+    }
+    let deadline = Instant::now() + Duration::from_secs(90);
+    let mut out = vec![];
+    for job in jobs {
+        let (ch, dir, slot) = match job {
+            Job::Cached(o) => {
+                out.push(o);
+                continue;
+            }
+            Job::Run(ch, dir, slot) => (ch, dir, slot),
+        };
+        let obs = match ch {
+            Err(_) => "ERROR:spawn".to_owned(),
+            Ok(mut ch) => {
+                // bounded wait
+                let mut status = None;
+                while Instant::now() < deadline {
+                    match ch.try_wait() {
+                        Ok(Some(st)) => {
+                            status = Some(st);
+                            break;
+                        }
+                        Ok(None) => std::thread::sleep(Duration::from_millis(20)),
+                        Err(_) => break,
+                    }
+                }
+                match status {
+                    None => {
+                        let _ = ch.kill();
+                        let _ = ch.wait();
+                        "TIMEOUT".to_owned()
+                    }
+                    Some(st) => {
+                        let mut text = String::new();
+                        if let Some(mut o) = ch.stdout.take() {
+                            use std::io::Read;
+                            let _ = o.read_to_string(&mut text);
+                        }
+                        let line = text.lines().next().unwrap_or("").trim().to_owned();
+                        if !st.success() || line.is_empty() {
+                            format!("ABORT:{:?}", st.code())
+                        } else {
+                            if let Some(slot) = slot {
+                                let _ = std::fs::write(slot, &line);
+                            }
+                            line
+                        }
+                    }
+                }
+            }
+        };
+        let _ = std::fs::remove_dir_all(&dir);
+        out.push(obs);
+    }
+    out.join("|")
+}
+
+/// atomic replacement of the configuration file: a poll sees the old or the new version, never a
+/// half-written one
+fn put_file_atomic(p: &Path, bytes: &[u8], m: u64) {
+    let tmp = p.with_extension("tmp");
+    put_file(&tmp, bytes, m);
+    std::fs::rename(&tmp, p).unwrap();
+}
+
+/// is the thread `ConfigReloader::start` names "log4rs refresh" still there?
+fn reloader_thread_alive() -> bool {
+    if let Ok(rd) = std::fs::read_dir("/proc/self/task") {
+        for e in rd.flatten() {
+            if let Ok(c) = std::fs::read_to_string(e.path().join("comm")) {
+                if c.trim_end() == "log4rs refresh" {
+                    return true;
+                }
+            }
+        }
+    }
+    false
+}
+
+fn probe_global() -> (String, Vec<usize>) {
+    RTAGS.with(|t| t.borrow_mut().clear());
+    log::error!(target: "probe", "p");
+    let mut tags = RTAGS.with(|t| t.borrow().clone());
+    tags.sort();
+    let serials = tags.iter().map(|t| t.1).collect();
+    if tags.is_empty() {
+        ("none".to_owned(), serials)
+    } else {
+        (tags.iter().map(|t| t.0.to_string()).collect::<Vec<_>>().join("+"), serials)
+    }
+}
+
+fn child_thread(docs: &str, hist: &str, dir: &str) -> Result<String, String> {
+    let docs: Vec<Doc> = dec_list('/', docs).iter().map(|d| dec_doc(d)).collect::<Option<_>>().ok_or("docs")?;
+    let (init, steps) = hist.split_once('>').ok_or("history")?;
+    let f: Vec<&str> = init.split(':').collect();
+    if f.len() != 2 {
+        return Err("init".to_owned());
+    }
+    let d0: usize = f[0].parse().map_err(|_| "init")?;
+    let m0: u64 = f[1].parse().map_err(|_| "init")?;
+    if d0 >= docs.len() {
+        return Err("init".to_owned());
+    }
+    let path = Path::new(dir).join("log4rs.yaml");
+    put_file_atomic(&path, render_doc_unit(&docs[d0], "ms").as_bytes(), m0);
+    let mut des = log4rs::config::Deserializers::default();
+    des.insert("tagged", RTaggedDeserializer(Arc::new(AtomicUsize::new(0))));
+    if log4rs::init_file(&path, des).is_err() {
+        return Ok("init-err".to_owned());
+    }
+    // give `thread::Builder::spawn` a moment to name the thread
+    std::thread::sleep(Duration::from_millis(50));
+    let (tag0, mut serials) = probe_global();
+    let mut out = vec![format!("init:{}:{}", tag0, enc_bool(reloader_thread_alive()))];
+    for s in dec_list(',', steps) {
+        let f: Vec<&str> = s.split(':').collect();
+        let mut wait = THREAD_WAIT_MS;
+        match f.as_slice() {
+            ["w", d, m] => {
+                let d: usize = d.parse().map_err(|_| "step")?;
+                let m: u64 = m.parse().map_err(|_| "step")?;
+                if d >= docs.len() {
+                    return Err("step".to_owned());
+                }
+                put_file_atomic(&path, render_doc_unit(&docs[d], "ms").as_bytes(), m);
+            }
+            ["x"] => clear_path(&path),
+            ["u", m] => {
+                let m: u64 = m.parse().map_err(|_| "step")?;
+                put_file_atomic(&path, &[0x61, 0xff, 0xfe, 0x0a], m);
+            }
+            ["z"] => wait = THREAD_LONG_WAIT_MS,
+            _ => return Err("step".to_owned()),
+        }
+        std::thread::sleep(Duration::from_millis(wait));
+        let (tag, now) = probe_global();
+        let touched = now != serials;
+        serials = now;
+        out.push(format!("{}:{}:{}", tag, enc_bool(touched), enc_bool(reloader_thread_alive())));
+    }
+    Ok(out.join(","))
+}
+
+/// child-process entry point: `verif-harness child c15 thread <docs> <history> <scratch dir>`
+pub fn child(args: &[String]) -> i32 {
+    if args.len() != 4 || args[0] != "thread" {
+        return 2;
+    }
+    let r = guarded(std::panic::AssertUnwindSafe(|| child_thread(&args[1], &args[2], &args[3])));
+    let obs = match r {
+        Ok(Ok(s)) => s,
+        Ok(Err(e)) => format!("ERROR:{}", e),
+        Err(_) => "PANIC".to_owned(),
+    };
+    println!("{}", obs);
+    0
 }
